@@ -28,7 +28,41 @@ class _Reg(dict):
             if name.startswith("randc:"):
                 d["scalar"] = "complex128"
             return d
+        if name.startswith("randids:"):
+            return dict(name=name, build=lambda n=name: rand_ids_form(n), tags={"rand"}, itypes=("cell", "exterior_facet", "interior_facet"))
         raise KeyError(name)
+
+
+def rand_ids_form(name):
+    """Random subdomain-id patterns: 2-5 integrals per type, each over a random tuple of ids (or everywhere),
+    distinct integrands, so that every (type, id) has its own expected sum."""
+    import random
+
+    _, seed, i = name.split(":")
+    r = random.Random(int(seed) * 7919 + int(i) * 104729 + 5)
+    cell = r.choice(["triangle", "interval", "quadrilateral"])
+    m = mesh(cell)
+    V = space(m, "DG" if cell != "quadrilateral" else "DQ", 1)
+    v = ufl.TestFunction(V)
+    f = ufl.Coefficient(V)
+    form = None
+    types = r.sample(["cell", "exterior_facet", "interior_facet"], r.choice([1, 2, 2, 3]))
+    j = 0
+    for t in types:
+        for _ in range(r.randint(2, 5)):
+            j += 1
+            n = r.choice([1, 1, 2, 2, 3])
+            ids = tuple(r.sample(range(1, 10), n))
+            sid = None if r.random() < 0.15 else (ids[0] if n == 1 else ids)
+            md = {"quadrature_degree": r.choice([1, 2])} if r.random() < 0.3 else None
+            M = {"cell": dx, "exterior_facet": ds, "interior_facet": dS}[t]
+            kw = {"metadata": md} if md else {}
+            meas = M(sid, domain=m, **kw) if sid is not None else M(domain=m, **kw)
+            vv = v("+") if t == "interior_facet" else v
+            ff = f("-") if t == "interior_facet" else f
+            term = float(j) * (ff ** (1 + j % 2)) * vv * meas
+            form = term if form is None else form + term
+    return form
 
 
 REG: dict[str, dict] = _Reg()
